@@ -6,6 +6,19 @@ func register(c *PropConfig) { propConfigs[c.ID] = c }
 
 func init() {
 	register(&PropConfig{
+		ID:         "C12",
+		Packages:   []string{"."},
+		Corpus:     true,
+		CorpusOnly: []string{"test_script_usage", "test_script_usage_nonce", "test_script_inline", "test_js_usage", "test_js_unsafe_usage", "test_css_usage", "test_css_middleware", "test_css_expression", "test_once", "test_complex_attributes", "test_only_scripts", "test_call"},
+		Extra:      func(r *Run) { r.VerifyGenerated(r.corpus, "C12") },
+		Assume: []string{
+			"one render = one shared context value holding the registry (getContext / InitializeContext trusted with that model)",
+			"history statement (at most once per context over any sequence of uses; independence of contexts) follows by induction from the per-operation contracts + registry monotonicity; the induction itself is not mechanised",
+			"user expressions are deterministic: the script expression hoisted in front of an element denotes the same value as the one used in its on* attribute",
+			"programs: the regenerated corpus",
+		},
+	})
+	register(&PropConfig{
 		ID:       "C01",
 		Packages: []string{"."},
 		Corpus:   true,
